@@ -21,8 +21,8 @@ TRUSTED = ["hand model ESRVerif/Model/Rank.lean of combine_DL.main (tied by rand
            "exact real arithmetic in the theorems: rounding, overflow and the %.7e text round-off between stages are not modelled",
            "harness/extractors/rank.py (shape of lines 64-86 and 125-164 regenerated into Generated/Rank.lean)",
            "sort -V / cat / find / rm of the shell"]
-ASSUMPTIONS = ["no description length is -inf (excluded point: (-inf, 3) gives NaN probabilities; sums of the values the "
-               "matching stage writes are never -inf unless a term is)",
+ASSUMPTIONS = ["no description length is -inf (excluded point: with (-inf, 3) the probabilities do not sum to one; sums of the "
+               "values the matching stage writes are never -inf unless a term is)",
                "the codelen_matches table has at least two rows in total (fewer: numpy returns a 1-D array and "
                "combine_DL.py:42 raises IndexError; in the pipeline every unique function is its own variant, so "
                ">=2 uniques give >=2 rows)",
@@ -276,9 +276,8 @@ def oracle(t, final):
         anyfinite = any(math.isfinite(f["dl"]) for f in final)
         neg = [i for i, f in enumerate(final) if not (f["prel"] >= 0.0)]
         if neg:
-            kind = "prel-nonneg" if anyfinite else "prel-nan-all-DL-infinite"
-            bad.append((kind, "Prel of row %d is %r (not >= 0)%s" % (neg[0], final[neg[0]]["prel"],
-                        "" if anyfinite else "; every description length in the table is +inf")))
+            bad.append(("prel-nonneg", "Prel of row %d is %r (not >= 0)%s" % (neg[0], final[neg[0]]["prel"],
+                        "" if anyfinite else "; no description length in the table is finite")))
         dup = [any(final[j]["nll"] == final[i]["nll"] for j in range(i)) for i in range(len(final))]
         for i, f in enumerate(final):
             if dup[i] and not neg and f["prel"] != 0.0:
@@ -409,7 +408,7 @@ def features(t, real):
     return f
 
 
-def explore(ctx, n, tag):
+def explore(ctx, n, tag, deep=False):
     rng = ctx.rng
     jobs = []
     for k in range(n):
@@ -419,7 +418,7 @@ def explore(ctx, n, tag):
         P = rng.choice([1, 1, 1, 2, 3, 4, 5]) if rng.random() < 0.8 else rng.choice([2, 3, 4, 5])
         if rng.random() < 0.1 and t["U"] <= 4:
             P = 5                                                    # P > number of uniques
-        if rng.random() < 0.007:
+        if deep and rng.random() < 0.007:
             P = rng.choice([11, 12])                                 # two-digit rank numbers in the per-rank file names (sort -V)
         jobs.append((t, P))
     outs = run_real(ctx, jobs, tag)
@@ -452,8 +451,7 @@ def explore(ctx, n, tag):
             for kind, msg in oracle(t, real["final"]):
                 if kind == "excluded":
                     continue
-                site = "combine_DL.py:164" if kind.startswith("prel-nan-all") else "combine_DL.main"
-                ctx.fail("%s@%s" % (kind, site), "%s (U=%d, %d variant rows, P=%d)" % (msg, t["U"], len(t["rows"]), P), wire)
+                ctx.fail("%s@combine_DL.main" % kind, "%s (U=%d, %d variant rows, P=%d)" % (msg, t["U"], len(t["rows"]), P), wire)
         if k < 3:
             ctx.sample(dict(P=P, U=t["U"], variant_rows=len(t["rows"]),
                             final_head=[[f["rank"], f["fcn"], f["dl"], f["prel"]] for f in real.get("final", [])[:4]],
@@ -465,7 +463,7 @@ def run(ctx):
     drift = extract.drifted(ctx.proof.get("extract", {}), MODELLED)
     deep = (not ctx.quick) or bool(drift)
     ctx.extra["source_drift"] = drift
-    n = 40000 if deep else 3000
+    n = 40000 if deep else 2400
     if os.environ.get("ESRV_C06_TABLES"):                     # testing aid only (mutation trials of the check itself)
         n = int(os.environ["ESRV_C06_TABLES"])
     kf = common.known_findings(ctx.pid)
@@ -475,7 +473,7 @@ def run(ctx):
     done = 0
     while done < n:
         m = min(chunk, n - done)
-        b, f, d = explore(ctx, m, "x%d" % done)
+        b, f, d = explore(ctx, m, "x%d" % done, deep)
         nbad += b
         for k, v in f.items():
             feat[k] = feat.get(k, 0) + v
@@ -493,7 +491,7 @@ def run(ctx):
                                        "Prel to 1e-12) and combine_DL_comp/fcn_comp rows, model run with the same rank count")
     ctx.extra["branches_hit"] = {k: feat[k] for k in sorted(feat)}
     ctx.extra["input_distribution"] = {nm: {str(k): v for k, v in sorted(d.items())} for nm, d in dist.items()}
-    ctx.extra["bounds"] = dict(uniques="2-40", variants_per_unique="0-6", ranks="1-5 (and 11, 12 rarely)", params="0-3",
+    ctx.extra["bounds"] = dict(uniques="2-40", variants_per_unique="0-6", ranks="1-5 (thorough: also 11, 12 rarely)", params="0-3",
                                values="reals (to 1e5), +inf, NaN; no -inf, no -0.0")
     ctx.extra["excluded_points"] = ["a description length of -inf", "fewer than two variant rows in total (IndexError at combine_DL.py:42; "
                                     "model returns `none`, agreement is checked)"]
